@@ -33,6 +33,11 @@ Proof. exact writes_infer. Qed.
 Theorem C16_constructor_copy : forall p, items (ctor_copy p) = items p /\ incl (items (ctor_copy p)) (rec (ctor_copy p)).
 Proof. exact ctor_copy_ok. Qed.
 
+(* outside the fragment (known finding C16-j): plain assignment to the field of a shallow copy of the owner is recorded for the original *)
+Theorem C16_refuted_clone_assign :
+  let s := cstep (CAssign WQ [1]) (clone_init [0]) in In 1 (sitems s) /\ ~ In 1 (recs s WQ) /\ In 1 (recs s WP).
+Proof. exact refuted_clone_assign. Qed.
+
 (* non-vacuity: the three formerly erasing writes, and an assignment with repetitions *)
 Example C16_nonvacuous :
   items (snd (Container.run KList [Assign [2; 1; 0; 1]; AssignSelf; IAug [3]] (init KList []))) = [2; 1; 0; 1; 3] /\
@@ -44,3 +49,4 @@ Print Assumptions C16_writes.
 Print Assumptions C16_constructor.
 Print Assumptions C16_inferences.
 Print Assumptions C16_constructor_copy.
+Print Assumptions C16_refuted_clone_assign.
